@@ -44,6 +44,8 @@ def build_registry():
     props_c.register(reg)
     from contracts import header_c
     header_c.register(reg)
+    from contracts import table_c
+    table_c.register(reg)
     return reg
 
 
